@@ -170,16 +170,30 @@ func ruleELIDE(c *Ctx) []Obligation {
 			if !ok {
 				return true
 			}
-			be, ok := is.Cond.(*ast.BinaryExpr)
-			if !ok || be.Op != token.EQL {
-				return true
-			}
 			isComdatName := func(e ast.Expr) bool {
 				se, ok := unparen(e).(*ast.SelectorExpr)
 				if !ok || se.Sel.Name != "Name" {
 					return false
 				}
 				return isNamed(info.TypeOf(se.X), pkgIR, "ComdatDef")
+			}
+			// the comparison itself, possibly one conjunct of the condition
+			// (!g.IsUnnamed() && g.Comdat.Name == g.GlobalName)
+			var be *ast.BinaryExpr
+			conds := []ast.Expr{is.Cond}
+			for i := 0; i < len(conds); i++ {
+				b, ok := unparen(conds[i]).(*ast.BinaryExpr)
+				if !ok {
+					continue
+				}
+				if b.Op == token.LAND {
+					conds = append(conds, b.X, b.Y)
+				} else if b.Op == token.EQL && be == nil && (isComdatName(b.X) || isComdatName(b.Y)) {
+					be = b
+				}
+			}
+			if be == nil {
+				return true
 			}
 			var other ast.Expr
 			switch {
